@@ -9,6 +9,7 @@ A seeded change is applied to a scratch COPY of /repo (never to /repo itself); c
 VERIF_REPO=<copy> and VERIF_NO_EVIDENCE=1.
 """
 import json
+import re
 import os
 import shutil
 import subprocess
@@ -121,6 +122,32 @@ if __name__ == "__main__":
             print(f"{sys.argv[2]} {c}: exit={rc} {last}")
             for s in sigs[:8]:
                 print("   ", s[:200])
+    elif cmd == "table":
+        # rewrite the table of SEEDED.md from the meta.json files (the text above it is kept)
+        path = os.path.join(VERIF, "SEEDED.md")
+        head = []
+        for ln in open(path):
+            if ln.startswith("| id |"):
+                break
+            head.append(ln)
+        rows = ["| id | property | change | first run | final | strengthening after a miss |\n",
+                "|---|---|---|---|---|---|\n"]
+        base = os.path.join(VERIF, "seeded")
+
+        def order(sid):
+            m = re.match(r"C(\d+)-(?:r(\d+))?([ab])", sid)
+            return (int(m.group(1)), int(m.group(2) or 1), m.group(3))
+
+        ids = [x for x in os.listdir(base) if os.path.exists(os.path.join(base, x, "meta.json"))]
+        for sid in sorted(ids, key=order):
+            meta = json.load(open(os.path.join(base, sid, "meta.json")))
+            ev = meta.get("evaluation") or {}
+            rows.append("| %s | %s | %s | %s | %s | %s |\n" % (
+                sid, meta["property"], meta["summary"][:110].replace("|", "/").replace("\n", " "),
+                ev.get("first_run", "?"), ev.get("final", "?"),
+                (ev.get("strengthening") or "").replace("|", "/")))
+        open(path, "w").write("".join(head) + "".join(rows))
+        print(len(rows) - 2, "rows")
     elif cmd == "all":
         base = os.path.join(VERIF, "seeded")
         for sid in sorted(os.listdir(base)):
